@@ -134,6 +134,19 @@ fn random_params(rng: &mut Rng, nmax: usize) -> Vec<MeanVari> {
         .collect()
 }
 
+/// the time nearest below/at `t` that lies exactly on a half-frame boundary (n + 1/2 frames), if one exists near t
+fn snap_tie(t: u64, rate: usize, fperiod: usize) -> Option<u64> {
+    let den = 2 * rate as u128;
+    let n = t as u128 * rate as u128 / (fperiod as u128 * 10_000_000u128);
+    for k in 0..4u128 {
+        let num = (2 * (n + k) + 1) * fperiod as u128 * 10_000_000u128;
+        if num % den == 0 {
+            return Some((num / den) as u64);
+        }
+    }
+    None
+}
+
 /// exact candidates for round(t * rate / (fperiod * 1e7)), t in 100 ns units
 fn frame_cands(t: u64, rate: usize, fperiod: usize) -> Vec<i64> {
     let num = t as u128 * rate as u128;
@@ -142,7 +155,11 @@ fn frame_cands(t: u64, rate: usize, fperiod: usize) -> Vec<i64> {
     let rem = num % den;
     let two = 2 * rem;
     let dist = if two > den { two - den } else { den - two }; // |2 rem - den| = 2 den |frac - 1/2|
-    if dist * 1_000_000_000u128 <= 2 * den {
+    if dist == 0 {
+        // an exact half-frame boundary: round() is half away from zero (time * rate and fperiod * 1e7 are exact in f64 and
+        // their quotient is correctly rounded, so an implementation that multiplies first gets this right; D12)
+        vec![fl as i64 + 1]
+    } else if dist * 1_000_000_000u128 <= 2 * den {
         vec![fl as i64, fl as i64 + 1]
     } else if two > den {
         vec![fl as i64 + 1]
@@ -208,11 +225,21 @@ pub fn record(seed: u64, n: usize, mode: &str, out_path: &str) {
                 let nl = 1 + rng.below(6);
                 let lines = corpus.utterance(&mut rng, nl);
                 let mut engine = base_engine.clone();
-                let f1 = engine.synthesize(&lines[..]).map(|w| w.len() / engine.condition.get_fperiod()).unwrap_or(0);
+                // the number of frames does not depend on the rendering frame period or sampling rate (utterances "as in C01":
+                // frame-period override 1..480, rate override 8k..96k); F1 comes from the duration model itself
+                if rng.chance(0.5) {
+                    engine.condition.set_fperiod(*rng.pick(&[60usize, 120, 200, 300, 480]));
+                }
+                if rng.chance(0.3) {
+                    engine.condition.set_sampling_frequency(*rng.pick(&[16000usize, 22050, 44100, 96000]));
+                }
+                let labels: Vec<jlabel::Label> = lines.iter().filter_map(|l| l.parse().ok()).collect();
+                let m1 = Models::new(&labels, &engine.voices, engine.condition.get_interporation_weight());
+                let f1 = DurationEstimator::new(m1.duration(), m1.nstate()).create(1.0).iter().sum::<usize>();
                 let nst = lines.len() * engine.voices.global_metadata().num_states;
-                for _ in 0..4 {
-                    // very slow rates stretch single (pause) states to many hundreds of frames
-                    let milli = *rng.pick(&[400i64, 800, 1200, 1600, 300, 700, 1100, 2500, 3300, 50, 100, 150, 200, 9000]);
+                for k in 0..5 {
+                    // very slow rates stretch single (pause) states to many hundreds of frames; the first run is at speed 1
+                    let milli = if k == 0 { 1000 } else { *rng.pick(&[400i64, 800, 1200, 1600, 300, 700, 1100, 2500, 3300, 100, 125, 150, 200, 9000]) };
                     let sp = milli as f64 / 1000.0;
                     engine.condition.set_speed(sp);
                     let exact = engine.condition.get_speed() == sp;
@@ -239,7 +266,13 @@ pub fn record(seed: u64, n: usize, mode: &str, out_path: &str) {
             let mut cands = Vec::new();
             let mut t: u64 = rng.below(1_000_000) as u64;
             for lab in &labs {
-                let d = rng.below(5_000_000) as u64;
+                let mut d = rng.below(5_000_000) as u64;
+                if rng.chance(0.3) {
+                    // an end exactly on a half-frame boundary
+                    if let Some(e) = snap_tie(t + d, rate, fp).filter(|e| *e >= t) {
+                        d = e - t;
+                    }
+                }
                 if rng.chance(0.15) {
                     lines.push(lab.clone());
                     cands.push(json!([]));
@@ -279,7 +312,7 @@ pub fn record(seed: u64, n: usize, mode: &str, out_path: &str) {
             let mut engine = base_engine.clone();
             engine.condition.set_phoneme_alignment_flag(true);
             if rng.chance(0.3) {
-                engine.condition.set_fperiod(*rng.pick(&[80usize, 120, 240, 480]));
+                engine.condition.set_fperiod(*rng.pick(&[80usize, 120, 240, 480, 256, 100]));
             }
             if rng.chance(0.3) {
                 engine.condition.set_sampling_frequency(*rng.pick(&[16000usize, 22050, 44100, 48000]));
@@ -302,6 +335,12 @@ pub fn record(seed: u64, n: usize, mode: &str, out_path: &str) {
                     1 => rng.below(100_000) as u64,
                     _ => 200_000 + rng.below(4_000_000) as u64,
                 };
+                let mut dur = dur;
+                if rng.chance(0.3) {
+                    if let Some(e) = snap_tie(t + dur, rate, fp).filter(|e| *e >= t) {
+                        dur = e - t; // the boundary lies exactly half way between two frames
+                    }
+                }
                 let (mut s, mut e) = (Some(t), Some(t + dur));
                 t += dur;
                 if rng.chance(0.1) {
